@@ -32,7 +32,10 @@ def brFile (x : Br) (name : Nat) : Option (List Fu.Node) := (x.files.find? (·.1
 def brSet (x : Br) (name : Nat) (f : List Fu.Node) : Br := { x with files := (name, f) :: x.files.filter (·.1 ≠ name) }
 def brDrop (x : Br) (name : Nat) : Br := { x with files := x.files.filter (·.1 ≠ name) }
 
-inductive Op | add (name lines : Nat) | rm (name lines : Nat) | mod (name oldL newL : Nat) (script : List (EK × Nat))
+inductive Op
+  | add (name lines : Nat) | rm (name lines : Nat) | mod (name oldL newL : Nat) (script : List (EK × Nat))
+  /-- a rename reported together with an edit: the file `src` appears as `name` with the given edit script -/
+  | ren (src name oldL newL : Nat) (script : List (EK × Nat))
 
 def markMf (w : W) (merge : Bool) (b name : Nat) (v : Bool) : W :=
   if merge then w.setMf (w.br b).mref name v else w
@@ -46,6 +49,19 @@ def doInsert (fixed merge : Bool) (w : W) (b author eff name lines : Nat) : Exce
     let w := (w.setBr b (brSet x name (Fu.newFile time lines)))
     let w := { w with evs := w.evs ++ toEvs (Fu.emit time time lines), deletions := w.deletions.filter (· ≠ name) }
     .ok (markMf w merge b name true)
+
+/-- the edit of a tracked file `f` that is (now) called `name` on branch `b` -/
+def doEdit (fixed : Bool) (w : W) (b author eff name oldL newL : Nat) (script : List (EK × Nat)) (f : List Fu.Node) :
+    Except String W :=
+  if fileLen f ≠ oldL then .error "integrity src" else
+  match translate script 0 (.eq, 0) [] with
+  | .error e => .error e
+  | .ok us =>
+    match applyUpds fixed (pack w.pn author eff) us f w.evs with
+    | .error e => .error e
+    | .ok (f', evs) =>
+      if fileLen f' ≠ newL then .error "integrity dst"
+      else .ok { (w.setBr b (brSet (w.br b) name f')) with evs := evs }
 
 /-- one change of one commit on branch b; `eff` = the commit's tick, or MARK in merge mode -/
 def doOp (fixed merge : Bool) (w : W) (b author eff : Nat) : Op → Except String W
@@ -63,19 +79,20 @@ def doOp (fixed merge : Bool) (w : W) (b author eff : Nat) : Op → Except Strin
         .ok (markMf w merge b name false)
   | .mod name oldL newL script =>
     let w := markMf w merge b name true
-    let x := w.br b
-    match brFile x name with
+    match brFile (w.br b) name with
+    | none => doInsert fixed merge w b author eff name newL
+    | some f => doEdit fixed w b author eff name oldL newL script f
+  | .ren src name oldL newL script =>
+    -- handleModification: the new name is recorded as touched; an unknown old name makes it an insertion;
+    -- otherwise handleRename moves the file (overwriting whatever was tracked under the new name), takes the new name
+    -- off the deletions and, in merge mode, records the old name as gone; then the edit proceeds under the new name
+    let w := markMf w merge b name true
+    match brFile (w.br b) src with
     | none => doInsert fixed merge w b author eff name newL
     | some f =>
-      if fileLen f ≠ oldL then .error "integrity src" else
-      match translate script 0 (.eq, 0) [] with
-      | .error e => .error e
-      | .ok us =>
-        match applyUpds fixed (pack w.pn author eff) us f w.evs with
-        | .error e => .error e
-        | .ok (f', evs) =>
-          if fileLen f' ≠ newL then .error "integrity dst"
-          else .ok { (w.setBr b (brSet x name f')) with evs := evs }
+      let w := { (w.setBr b (brSet (brDrop (w.br b) src) name f)) with deletions := w.deletions.filter (· ≠ name) }
+      let w := markMf w merge b src false
+      doEdit fixed w b author eff name oldL newL script f
 
 /-- start of Consume: tick bookkeeping and, in merge mode, a fresh mergedFiles object -/
 def beginCommit (w : W) (b tick author : Nat) (merge : Bool) : W :=
